@@ -47,6 +47,7 @@ def _worker(job):
             out["parsers"][name] = {"construct": impl.exc_kind(e)}
             continue
         det = all(len(al) == 1 for s in p.table.states for al in s.actions.values())
+        tdump = impl.dump_table(p.table, gi) if name.startswith("lr") else None
         res = {}
         for w in inputs:
             r = {}
@@ -71,7 +72,7 @@ def _worker(job):
             except BaseException as e:  # noqa
                 r["kind"] = "exc:" + impl.exc_kind(e)
             res[w] = r
-        out["parsers"][name] = {"construct": "ok", "deterministic": det, "results": res}
+        out["parsers"][name] = {"construct": "ok", "deterministic": det, "results": res, "table": tdump}
     return out
 
 
@@ -153,6 +154,7 @@ def run(ctx):
           "multiline_errors": 0, "disambiguation_errors": 0, "timeouts_nondeterministic_lr": 0,
           "renders": 0, "kinds": {}}
     mcases, meta = [], []
+    tcases, tmeta = [], []
     distinct = set()
     samples = []
     for r in results:
@@ -164,6 +166,12 @@ def run(ctx):
         for pname, pr in r["parsers"].items():
             if pr["construct"] != "ok":
                 continue
+            if pr.get("table") is not None:
+                start = r["grammar"][0][1][0][1]
+                tcases.append((3, [r["grammar"], pr["table"], start]))
+                tmeta.append((r, pname, "table_struct"))
+                tcases.append((12, [r["grammar"], pr["table"], r["stop"]]))
+                tmeta.append((r, pname, "table_progress"))
             glr = pname.startswith("glr")
             det = pr["deterministic"] and pname.startswith("lr-det") and r["plain"]
             for w, res in pr["results"].items():
@@ -235,6 +243,12 @@ def run(ctx):
                 if len(samples) < 3 and "\n" in w and res["pos"] > 2:
                     samples.append(dict(rep, position=res["pos"], line=res["line"], column=res["col"],
                                         expected=res["expected"]))
+    st["lr_tables_validated"] = 0
+    for (r, pname, what), o in zip(tmeta, common.model_run(tcases)):
+        st["lr_tables_validated"] += 1
+        if o != 1:
+            ctx.violation("%s fails on the impl's table of %s: the hypothesis of C10_lr_no_crash does not hold"
+                          % (what, pname), {"grammar": r["gtext"], "parser": pname}, no_input=True, key=what)
     outs = common.model_run(mcases)
     nx, xok, xlog = common.coq_crosscheck("C10", mcases, outs, ctx.rng, sample=60 if ctx.quick() else 200)
     if not xok:
